@@ -105,6 +105,10 @@ func genRelayCfg(g *gen, focus string) *Cfg {
 	for _, n := range sortedNames(topo.hopNames) {
 		if g.chance(70) {
 			c.Hosts = append(c.Hosts, HostCfg{Name: n, IP: topo.hopNames[n]})
+			if g.chance(15) {
+				// the same name in the top-level table with another address: the service's own entry wins
+				c.GlobalHosts = append(c.GlobalHosts, HostCfg{Name: n, IP: topo.hops[g.intn(len(topo.hops))]})
+			}
 		}
 	}
 	// static routes
@@ -530,6 +534,12 @@ func genRequest(g *gen, c *Cfg, o *relayGenOpts, learnedHosts []string) Op {
 			}
 			if g.chance(15) {
 				params += ";received=" + g.pick("192.0.2.99", "10.66.6.6") // spoofed
+			} else if g.chance(8) {
+				// spoofed under another spelling of the parameter name: not the parameter the proxy stamps and reads
+				params += ";" + g.pick("Received", "RECEIVED", "reCeived") + "=" + g.pick("192.0.2.99", "10.66.6.6")
+				if g.chance(40) {
+					params += ";" + g.pick("Rport", "RPORT") + "=" + strconv.Itoa(1000+g.intn(5000))
+				}
 			}
 		} else if g.chance(30) {
 			params += ";received=" + topo.uas[g.intn(len(topo.uas))]
@@ -747,6 +757,11 @@ func genRelayPlan(seed uint64, tier string, focus string) *Plan {
 			p.Ops = append(p.Ops, fo)
 			continue
 		}
+		if i > 0 && g.chance(3) {
+			// connections that stay up for an hour and more: a quiet hour passes, then the traffic goes on over them
+			p.Ops[len(p.Ops)-1].Settle = true
+			p.Ops = append(p.Ops, Op{Kind: "advance", ID: g.nextID(), Dur: int64(time.Duration(g.rng(3540, 3700)) * time.Second)})
+		}
 		if g.chance(6) {
 			p.Ops = append(p.Ops, Op{Kind: "keepalive", ID: g.nextID(), Listen: g.intn(len(p.Cfg.Listens)), Proto: "udp", SrcIP: topo.uas[g.intn(len(topo.uas))], SrcPort: 5060,
 				Data: []byte(g.pick("\r\n\r\n", "\r\n", "\n", " \r\n"))})
@@ -788,6 +803,29 @@ func genRelayPlan(seed uint64, tier string, focus string) *Plan {
 	}
 	if len(p.Ops) > 0 {
 		p.Ops[len(p.Ops)-1].Settle = true
+	}
+	if g.chance(5) {
+		// a transaction in flight while its connection turns an hour old: a request over a TCP connection, just under
+		// an hour of silence, another request over the same connection, answered a minute or more later
+		for li, l := range p.Cfg.Listens {
+			if l.TCP == 0 || len(l.Backends) == 0 {
+				continue
+			}
+			o2 := *o
+			o2.force = &relayForce{li: li, proto: "tcp", srcIP: topo.uas[g.intn(len(topo.uas))], srcPort: 41000 + g.intn(500), conn: "old-" + g.nextID()}
+			first := genRequest(g, &p.Cfg, &o2, nil)
+			p.Ops = append(p.Ops, first)
+			p.Ops = append(p.Ops, Op{Kind: "advance", ID: g.nextID(), Dur: int64(time.Duration(g.rng(3530, 3599)) * time.Second)})
+			second := genRequest(g, &p.Cfg, &o2, nil)
+			second.S["answer"] = g.pick("200", "180,200")
+			if second.I == nil {
+				second.I = map[string]int{}
+			}
+			second.I["answerLateS"] = g.rng(61, 200)
+			p.Ops = append(p.Ops, second)
+			p.Variant = "hour-old-connection"
+			break
+		}
 	}
 	return p
 }
